@@ -177,7 +177,11 @@ func (fr *frame) call(v ssa.Value, c *ssa.CallCommon, st *State, site ssa.Instru
 		why = "dynamic call " + c.Value.Name() + " in " + shortFn(fr.fn)
 	}
 	vc.warn("%s: call to %s has no contract and is not inlined: all state havoced", shortFn(fr.fn), why)
-	fr.havocEverything(st, false, why)
+	if e.cannotCallBack(c, callee) {
+		fr.havocEverythingBut(st, why)
+	} else {
+		fr.havocEverything(st, false, why)
+	}
 	fr.setResult(v, fr.freshResults(sig, st, label))
 }
 
@@ -383,7 +387,12 @@ func (fr *frame) applyContract(ct *Contract, callee *ssa.Function, sig *types.Si
 			if !ghost {
 				what = "heap-only:" + what
 			}
+			if ms.all {
+				what += " [" + ms.why + "]"
+			}
+			fr.keepBook = !ms.book
 			fr.frameHavoc(st, what)
+			fr.keepBook = false
 		}
 		fr.applyMods(st, ms, "call "+ct.Key)
 	} else {
@@ -446,7 +455,7 @@ func (fr *frame) applyModSpec(m ModSpec, ctx *specCtx, st *State) {
 	switch m.Kind {
 	case "fresh":
 	case "all":
-		fr.havocEverything(st, false, "modifies all")
+		fr.havocEverythingBut(st, "modifies all")
 	case "heap":
 		fr.havocEverything(st, true, "modifies heap")
 	case "ghost":
@@ -861,7 +870,7 @@ func (fr *frame) frameGhostWhole(key string, st *State) {
 		return
 	}
 	for _, d := range e.declMods {
-		if (d.key == key || d.key == "*") && d.idx == "" && d.pred == nil {
+		if (d.key == key || (d.key == "*" && !e.isBookKey(key))) && d.idx == "" && d.pred == nil {
 			return
 		}
 	}
@@ -881,7 +890,7 @@ func (fr *frame) frameGhostAt(key, idx string, st *State, cond string) {
 		alts = append(alts, fmt.Sprintf("(>= (vref %s) hw!0)", idx), fmt.Sprintf("(= (vref %s) 0)", idx))
 	}
 	for _, d := range e.declMods {
-		if d.key != key && d.key != "*" {
+		if d.key != key && (d.key != "*" || e.isBookKey(key)) {
 			continue
 		}
 		if d.pred != nil {
